@@ -1,3 +1,9 @@
 //! Safe-Rust verification hooks for this module (accessors/wrappers only; no logic).
 #![allow(unused_imports, dead_code)]
 use super::*;
+
+/// nameable alias of `TimeSnapshot::root_dispersion` for `#[kani::stub]`
+pub use super::TimeSnapshot;
+pub fn root_dispersion_fn(s: &TimeSnapshot, now: NtpTimestamp) -> NtpDuration {
+    s.root_dispersion(now)
+}
